@@ -362,8 +362,29 @@ def r_selectrange(db, rep):
                 ini = n.get("init")
                 if ini is not None and ini["k"] == "DeclStmt" and ini["decls"] and ini["decls"][0].get("init") is not None:
                     init = const_value(ini["decls"][0]["init"])
-                bp = access_path(f, cond["rhs"])
-                sig = (init, cond["op"], bp[-1] if bp else canon(SeqBuilder(db, f, "c", nosubst=True).sym(cond["rhs"])))
+                # semantic form of the enumeration: first and last argument handed to select1
+                sbx = SeqBuilder(db, f, "c", nosubst=True)
+                sbx.mode = "x"
+                bp = resolved_path(f, cond["rhs"])
+                if bp is not None and bp[0] == "local" and len(bp) == 2:
+                    # a local holding the count that is also stored into field n:  count = load(in); obj->n = count;
+                    for lv2, w2 in written_lvalues(f):
+                        p2 = access_path(f, lv2)
+                        if p2 and p2[-1] == "n" and w2.get("op") == "=" and w2.get("rhs") is not None and resolved_path(f, w2["rhs"]) == bp:
+                            bp = p2
+                nm = bp[-1] if bp else canon(sbx.sym(cond["rhs"]))
+                op = cond["op"]
+                arg = uses[0]["args"][0]
+                first = last = None
+                if init is not None and iv is not None:
+                    sbx.env[iv] = C(init)
+                    first = canon(sbx.sym(arg))
+                    sbx.env[iv] = ("global", "N") if op == "<=" else symx.mk_op("-", ("global", "N"), C(1)) if op == "<" else ("unk", "b")
+                    last = canon(sbx.sym(arg))
+                if first == canon(C(1)) and last == canon(("global", "N")) and nm == "n":
+                    sig = (1, "<=", "n")            # some other spelling of 1..n
+                else:
+                    sig = (init, op, nm)
                 rep.visit(f)
                 rep.inst(f.nloc(n), "%s: for (i = %s; i %s %s; ..) select1(i)" % (f.qn, sig[0], sig[1], sig[2]))
                 sigs.append((f, n, sig))
@@ -662,6 +683,25 @@ def r_fmmap(db, rep):
                         oke = True
             found = True
             if not (okt and oke):
+                rep.viol("%s#row-mapping" % f.qn, f.nloc(n), "%s does not map id == last to row 2 and any other id to row id+3" % f.qn, f.qn)
+        # the same mapping written as a conditional expression: (x == last) ? 2 : x + 3
+        for n in f.live_nodes():
+            if n["k"] != "ConditionalOperator":
+                continue
+            c = strip(n["cond"])
+            if c["k"] != "BinaryOperator" or c["op"] not in ("==", "!="):
+                continue
+            l, r = access_path(f, c["lhs"]), access_path(f, c["rhs"])
+            if lastp not in (l, r):
+                continue
+            idv = l if r == lastp else r
+            a, b = (n["then"], n["else"]) if c["op"] == "==" else (n["else"], n["then"])
+            sb = SeqBuilder(db, f, "c", nosubst=True)
+            if idv and idv[0] == "local":
+                sb.env[idv] = ("local", idv[1])
+            pl = symx.poly(sb.sym(b))
+            found = True
+            if not (const_value(a) == 2 and pl.get((), 0) == 3 and len(pl) == 2 and all(cf == 1 for m, cf in pl.items() if m)):
                 rep.viol("%s#row-mapping" % f.qn, f.nloc(n), "%s does not map id == last to row 2 and any other id to row id+3" % f.qn, f.qn)
         if not found:
             rep.viol("%s#row-mapping-missing" % f.qn, f.loc, "%s lacks the `id == last ? 2 : id+3` row mapping" % f.qn, f.qn)
